@@ -141,7 +141,7 @@ CHECKS["C18"] = dict(
          "or max_alignment() is never served; the figures allocator_traits reports for 14 real compositions are compared with Model.maxima.",
     note="pools and collections: 'maxima are true upper bounds' through C03 (oversize requests rejected), the above-maximum requests of the histories and D33 (recorded finding). "
          "binary_segregator reports its fallback's figures only: the bound is false for it (C18_segregator_max_counterexample, recorded finding D35); "
-         "array requests through compositions are covered by the correspondence of the reported figures only.",
+         "array requests through compositions: C18_compose_array_bound under the hypothesis that no leaf reports a smaller array figure than node figure.",
     technique="Lean 4 proof over generated formulas + grid enumeration on the real code")
 CHECKS["C16"] = dict(
     text="Lean theorems over the L1 models (proxies and chunk ring as addresses): ordered list - releasing any node that is on the list "
